@@ -102,7 +102,10 @@ func VerifH_C19_esFraming() {
 	batch := pipeline.NewPreparedBatch(events)
 	pipeline.VerifBatchMarkIterable(batch, deliverable > 0)
 	var wd pipeline.WorkerData
-	err := p.out(&wd, batch)
+	var err error
+	// several workers run out() on the one plugin object at once: whatever it writes must be per worker (WorkerData)
+	sharedWrites := vf.SharedWrites(p, func() { err = p.out(&wd, batch) })
+	vf.Assert(sharedWrites == 0, "out-does-not-write-to-the-plugin-shared-by-the-workers")
 	vf.Assert(err == nil, "send-succeeds")
 	if vf.Param("twin", 0) == 1 {
 		vf.Assert(len(verifReqs) != 1, "one-request")
